@@ -18,7 +18,7 @@ META = {
     "rule": "case = two-sided history over disjoint objects (family DISJ: ownership by top-level entry of a synchronised "
             "base tree with nested folders; deletes, renames, moves, edits, mkdir/rmdir, isolated folder renames with "
             "children), flavour x shape round-robin, 4-12 ops; distinct = distinct case signature; non-trivial = >= 1 "
-            "engine write after the base tree.  plus family SWAP (one side exchanges or rotates the names of 2-3 synchronised files through a temporary name in one window with no sync step in between, the other side creating/editing its own files); plus family NEST (folder renames/moves on one side racing with file create/write/in-place rename/move-in inside them on the other side, id-stable providers, object-addressed ops, object-graph expectation).  thorough adds un-isolated folder renames / name re-use (attributed to K1/K2 or reported)",
+            "engine write after the base tree.  plus family REUSE2 (a third of the cases: both sides take names again that they vacated in an earlier window, within the top-level entries they own); plus family SWAP (one side exchanges or rotates the names of 2-3 synchronised files through a temporary name in one window with no sync step in between, the other side creating/editing its own files); plus family NEST (folder renames/moves on one side racing with file create/write/in-place rename/move-in inside them on the other side, id-stable providers, object-addressed ops, object-graph expectation).  thorough adds un-isolated folder renames / name re-use (attributed to K1/K2 or reported)",
     "assumptions": ["expected tree = base with both sides' deltas applied on a plain dict model (possible because objects are disjoint)"],
 }
 
@@ -49,7 +49,7 @@ def shard(ctx, acc):
     plan = META["plan"][ctx.tier]
     flavours = F.S.FLAVOURS_MAIN if ctx.tier == "quick" else F.S.FLAVOURS_ALL
     for i in F.indices(ctx, plan["cases"]):
-        case = F.make_case(ctx.seed, PROP, i, families=("DISJ",), flavours=flavours)
+        case = F.make_case(ctx.seed, PROP, i, families=("DISJ", "DISJ", "REUSE2"), flavours=flavours)
         hz, _ = F.classify(case)
         if hz:
             acc.inconclusive.append("generator bug: main-family case %d has hazard %s" % (i, sorted(hz)))
